@@ -27,9 +27,11 @@
       figure [fig_occ]: ONE [occ] (same class, direction, property, type key,
       ORIGINAL cardinality key), or for the merged kind NONLITERAL the SUM
       [occ .. BNode ckb + occ .. IRI cki] -- that sum is what the code
-      prints, not the number of instances with a non-literal value; the
-      property text exempts nothing here: see [C01_nonliteral_overlap_refuted]
-      and [C01_nonliteral_mixed_cards_refuted] below.
+      prints, not the number of instances with a non-literal value: the
+      exactness claim exempts the merged kind, and what goes wrong there is
+      [C01_nonliteral_overlap_refuted] (an instance with both kinds counted
+      twice, C01-F1) and [C01_nonliteral_mixed_cards_refuted] (the sum of
+      two different cardinality variants, C01-F3) below.
     - [C01_line_exact] / [C01_comment_exact]: the same spelled out.
     - [C01_ratio_at_most_one_e2e], [C01_line_ratio_at_most_one].
     - [C01_header_is_number_of_instances]: the one statement with a graph
